@@ -1096,7 +1096,7 @@ fn run_fil(id: u64, g: &FilCase, api: &Discv5, inb: bool, rt: &tokio::runtime::R
                     saw_ban_drop = true;
                     hist.add("initial_pass:banned");
                     if d {
-                        fl.add(&["C18"], "datagram from a banned IP was let through", format!("{:?}", ev), i);
+                        fl.add(&["C18", "C11"], "datagram from a banned IP was let through", format!("{:?}", ev), i);
                     }
                 } else if !limited {
                     if !d {
@@ -1150,7 +1150,7 @@ fn run_fil(id: u64, g: &FilCase, api: &Discv5, inb: bool, rt: &tokio::runtime::R
                     saw_ban_drop = true;
                     hist.add("final_pass:banned");
                     if d {
-                        fl.add(&["C18"], "datagram from a banned node id was let through", format!("{:?}", ev), i);
+                        fl.add(&["C18", "C11"], "datagram from a banned node id was let through", format!("{:?}", ev), i);
                     }
                 } else if !g.enabled {
                     if !d {
